@@ -682,7 +682,126 @@ fn drive_guard(o: &mut Obs, b: &[u8]) {
     }
 }
 
+/// The entry points that do not touch the DOM (`Value`): the only ones the Miri interpreter can
+/// execute on this tree (DESIGN.md, observation O1). No behavioural oracle here: Miri itself is
+/// the monitor (undefined behaviour, data races, leaks), plus the UTF-8 check of handed-out strs.
+pub fn drive_nodom(o: &mut Obs, b: &[u8]) {
+    let ex = exact(b);
+    let sl: &[u8] = &ex;
+    ep!(o, "from_slice<LazyValue>", {
+        match sonic_rs::from_slice::<LazyValue>(sl) {
+            Ok(v) => {
+                o.oks += 1;
+                use_lazy(o, "LazyValue", &v);
+                let ov: OwnedLazyValue = v.clone().into();
+                use_owned(o, "OwnedLazyValue::from(LazyValue)", &ov);
+            }
+            Err(e) => o.err("from_slice<LazyValue>", &e),
+        }
+    });
+    ep!(o, "from_slice<OwnedLazyValue>", {
+        match sonic_rs::from_slice::<OwnedLazyValue>(sl) {
+            Ok(v) => {
+                o.oks += 1;
+                use_owned(o, "OwnedLazyValue", &v);
+            }
+            Err(e) => o.err("from_slice<OwnedLazyValue>", &e),
+        }
+    });
+    ep!(o, "typed", {
+        typed::<serde_json::Value>(o, "serde_json::Value", sl);
+        typed::<String>(o, "String", sl);
+        typed::<Cow<str>>(o, "Cow<str>", sl);
+        typed::<Borrowed>(o, "Borrowed", sl);
+        typed::<f64>(o, "f64", sl);
+        typed::<u64>(o, "u64", sl);
+        typed::<i128>(o, "i128", sl);
+        typed::<Number>(o, "Number", sl);
+        typed::<RawNumber>(o, "RawNumber", sl);
+        typed::<Unk>(o, "Unk", sl);
+        typed::<En>(o, "En", sl);
+        typed::<Vec<u8>>(o, "Vec<u8>", sl);
+        typed::<HashMap<String, String>>(o, "HashMap", sl);
+        let _ = sonic_rs::from_slice::<IgnoredAny>(sl);
+        let mut de = Deserializer::from_slice(sl).utf8_lossy();
+        if let Ok(s) = de.deserialize::<String>() {
+            o.s("lossy String", &s);
+        }
+    });
+    ep!(o, "stream<LazyValue>", { poll_stream::<LazyValue, _>(o, "stream<LazyValue>", Deserializer::from_slice(sl)) });
+    let paths = derive_paths(b);
+    for p in paths.iter().take(6) {
+        ep!(o, "get", {
+            match sonic_rs::get(sl, p) {
+                Ok(v) => {
+                    o.oks += 1;
+                    use_lazy(o, "get", &v)
+                }
+                Err(e) => o.err("get", &e),
+            }
+        });
+    }
+    ep!(o, "get_many", {
+        let mut t = PointerTree::new();
+        if paths.len() > 5 {
+            for p in paths.iter().skip(5).take(4) {
+                t.add_path(p);
+            }
+        } else {
+            t.add_path(&[PointerNode::Key(FastStr::new("a"))]);
+        }
+        match sonic_rs::get_many(sl, &t) {
+            Ok(vs) => {
+                for v in vs.iter().flatten() {
+                    o.s("get_many", v.as_raw_str());
+                }
+            }
+            Err(e) => o.err("get_many", &e),
+        }
+    });
+    ep!(o, "iterators", {
+        for x in sonic_rs::to_array_iter(sl).take(1000) {
+            if let Ok(v) = x {
+                o.s("array item", v.as_raw_str());
+            }
+        }
+        for x in sonic_rs::to_object_iter(sl).take(1000) {
+            if let Ok((k, v)) = x {
+                o.s("object key", &k);
+                o.s("object item", v.as_raw_str());
+            }
+        }
+    });
+    // serialisation of strings (format_string with the `sanitize` feature)
+    if let Ok(s) = std::str::from_utf8(sl) {
+        ep!(o, "to_string(&str)", {
+            if let Ok(out) = sonic_rs::to_string(s) {
+                o.s("to_string(&str)", &out);
+            }
+            let _ = sonic_rs::to_string_pretty(&vec![s, s]);
+            let mut v = Vec::new();
+            let _ = sonic_rs::to_writer(&mut v, s);
+        });
+    }
+}
+
 pub fn run_input(ctx: &mut Ctx, b: &[u8], light: bool) {
+    if ctx.build.starts_with("miri") {
+        let mut o = Obs::default();
+        drive_nodom(&mut o, b);
+        ctx.ops(o.calls);
+        ctx.class_n("outcome:ok", o.oks);
+        ctx.class_n("outcome:err", o.errs);
+        ctx.class("miri:nodom-driver");
+        ctx.nontrivial();
+        for (name, loc, msg) in &o.panics {
+            ctx.fail(&format!("{}:{}", name, panic_sig(loc, msg)), format!("panic in safe entry point {}: {} at {}", name, msg, loc));
+        }
+        for w in &o.bad_utf8 {
+            ctx.fail(&format!("invalid-utf8-str:{}", w), format!("a str handed out by the library is not valid UTF-8 ({})", w));
+        }
+        return;
+    }
     let mut o1 = Obs::default();
     drive(&mut o1, b, light);
     if !ctx.is_instrumented() {
@@ -730,6 +849,32 @@ impl Check for C01 {
     }
     fn generate(&self, g: &GenParams, emit: &mut dyn FnMut(Case)) {
         let mut r = g.rng(1);
+        if g.build.starts_with("miri") {
+            // the interpreter is ~4 orders of magnitude slower: a handful of small hostile inputs
+            let n = if g.tier == Tier::Quick { 5 } else { 120 };
+            for k in 0..n {
+                let mut o = doc::DocOpts::random(&mut r);
+                o.budget = o.budget.min(12);
+                let d = doc::gen_doc(&mut r, &o);
+                let d = if d.len() > 300 { d[..300].to_vec() } else { d };
+                if k % 2 == 0 {
+                    emit(Case::new("doc", d));
+                } else {
+                    emit(Case::new("mut", mutate::mutate(&mut r, &d).0));
+                }
+            }
+            // strings of chosen lengths around the vector widths for format_string
+            for len in [0usize, 1, 15, 16, 17, 31, 32, 33, 63, 64, 65, 80] {
+                if g.mine(len as u64) {
+                    let mut s = String::new();
+                    for i in 0..len {
+                        s.push(if i % 11 == 3 { '"' } else if i % 13 == 5 { '\\' } else if i % 17 == 7 { '\n' } else { (b'a' + (i % 26) as u8) as char });
+                    }
+                    emit(Case::new("str", s.into_bytes()));
+                }
+            }
+            return;
+        }
         // deep nesting, closed and unclosed (generated from params; input left empty)
         let depths: &[i64] = if g.tier == Tier::Quick { &[100, 129, 254, 255, 256, 300, 2_000, 20_000, 100_000] } else { &[100, 127, 128, 129, 255, 256, 257, 1_000, 10_000, 100_000, 1_000_000] };
         let mut idx = 0;
@@ -826,7 +971,9 @@ impl Check for C01 {
         }
     }
     fn required_classes(&self, b: &str, _t: Tier) -> Vec<&'static str> {
-        if b == "native-rel" {
+        if b.starts_with("miri") {
+            vec!["miri:nodom-driver"]
+        } else if b == "native-rel" {
             vec!["input:deep>128", "input:generated", "input:non-utf8", "outcome:ok", "outcome:err", "ledger:checked", "input:>=390KB"]
         } else {
             vec!["input:generated", "outcome:ok", "outcome:err"]
